@@ -97,6 +97,7 @@ type Case struct {
 	Cx      int64     `json:"cx"`   // answer of the complexity query (0 = whatever the database counts)
 	Np      int       `json:"np"`   // TraceQLSem!Portions(cx): 0 = one execution without random filter
 	Part    []int     `json:"part"` // hash class of every trace: cityHash64(trace_id) % np
+	Ph      int       `json:"ph"`   // sub-second phase of the stored span timestamps: 0 = whole seconds, 1 = off the second
 	Def     Outcome   `json:"def"`
 	Mech    []Outcome `json:"mech"`
 	Cand    bool      `json:"cand"`
@@ -465,7 +466,20 @@ func spanID(ti, si int, collide bool) []byte {
 	return b
 }
 
-func (v *Variant) concreteDB(db [][]Span, np int, part []int) ([]CSpan, error) {
+// sub-second offsets of phase 1 (multiples of 1 us: zipkin timestamps are microseconds; < 1 s = the smallest tick)
+var subSecondNs = []int64{1000, 999999000, 500000000, 123456000, 1000000, 999000000}
+
+func subNs(ph, h int) int64 {
+	if ph == 0 {
+		return 0
+	}
+	if h < 0 {
+		h = -h
+	}
+	return subSecondNs[(h/7)%len(subSecondNs)]
+}
+
+func (v *Variant) concreteDB(db [][]Span, np int, part []int, sub int64) ([]CSpan, error) {
 	var res []CSpan
 	for ti, tr := range db {
 		salt := 0
@@ -480,7 +494,7 @@ func (v *Variant) concreteDB(db [][]Span, np int, part []int) ([]CSpan, error) {
 		}
 		for si, s := range tr {
 			c := CSpan{Ti: ti + 1, Si: si + 1, TraceID: traceID(ti+1, salt), SpanID: spanID(ti+1, si+1, v.Collide),
-				TsNs: v.tick(s.Ts) * 1e9, DurNs: int64(s.Dur) * v.DurUnitUs * 1000, Service: "svc", NumKinds: map[string]int{}}
+				TsNs: v.tick(s.Ts)*1e9 + sub, DurNs: int64(s.Dur) * v.DurUnitUs * 1000, Service: "svc", NumKinds: map[string]int{}}
 			c.Name, _ = v.atomVal(s.Nm)
 			for _, kv := range [][2]string{{"a", s.A}, {"b", s.B}} {
 				if val, ok := v.atomVal(kv[1]); ok {
@@ -632,7 +646,7 @@ func writerEquivalence(w *e2e.World) (bool, string) {
 	db := [][]Span{{{A: "sx", B: "n3", Nm: "p", Dur: 1, Ts: 1}, {A: "none", B: "sy", Nm: "q", Dur: 3, Ts: 2}}, {{A: "n1", B: "none", Nm: "p", Dur: 3, Ts: 4}}}
 	for id := 0; id < 6; id++ {
 		v := mkVariant(id)
-		spans, _ := v.concreteDB(db, 0, nil)
+		spans, _ := v.concreteDB(db, 0, nil, subNs(id%2, id*7)) // odd variants: span starts off the whole second
 		skip := map[string]bool{"payload": true, "oid": true}
 		var dumps [2][]string
 		for i, path := range []string{"direct", "zipkin"} {
@@ -1162,7 +1176,8 @@ func main() {
 		vid := (*seed*7919 + c.H) % 4096
 		v := mkVariant(vid)
 		variants[vid] = true
-		spans, err := v.concreteDB(c.Db, c.Np, c.Part)
+		sub := subNs(c.Ph, c.H)
+		spans, err := v.concreteDB(c.Db, c.Np, c.Part, sub)
 		if err != nil {
 			fmt.Fprintf(os.Stderr, "case line %d: %v\n", line, err)
 			os.Exit(2)
@@ -1172,9 +1187,9 @@ func main() {
 			fmt.Fprintln(os.Stderr, err)
 			os.Exit(2)
 		}
-		dbKey := fmt.Sprint(vid, c.Db)
+		dbKey := fmt.Sprint(vid, sub, c.Db)
 		if c.Np > 1 {
-			dbKey = fmt.Sprint(vid, c.Db, c.Np, c.Part)
+			dbKey = fmt.Sprint(vid, sub, c.Db, c.Np, c.Part)
 		}
 		path := "direct"
 		if dbKey != lastDB {
@@ -1222,6 +1237,10 @@ func main() {
 		}
 		features["kind:"+c.Q.Kind]++
 		features["np:"+strconv.Itoa(c.Np)]++
+		features["ph:"+strconv.Itoa(c.Ph)]++
+		if c.Np > 1 {
+			features["ph:"+strconv.Itoa(c.Ph)+"/np:"+strconv.Itoa(c.Np)]++
+		}
 		if c.Cx > 0 {
 			features["cx:"+strconv.FormatInt(c.Cx, 10)]++
 		}
@@ -1248,7 +1267,7 @@ func main() {
 			if detailCount[key] <= *maxDetail {
 				res.Detail = map[string]any{"case": c, "data": describeDB(spans), "observed": obs,
 					"window": []int64{v.tick(c.Q.From), v.tick(c.Q.To)}, "limit": c.Q.Limit, "variant": v,
-					"complexity_answer": c.Cx, "portions": c.Np, "hash_class_of_trace": c.Part}
+					"complexity_answer": c.Cx, "portions": c.Np, "hash_class_of_trace": c.Part, "subsecond_offset_ns": sub}
 			}
 			results = append(results, res)
 		} else if len(samples) < 3 && len(obs.Seq) > 0 {
